@@ -2,6 +2,7 @@ import Driver.Util
 import GqlgenVerif.Model.Complexity
 import GqlgenVerif.Model.ComplexitySwitch
 import GqlgenVerif.Gen.ComplexityLabels
+import GqlgenVerif.Gen.ExtInstall
 /-! Line-protocol driver for C14: the complexity walker, its Spec, safeAdd and the gate.
 
 ```
@@ -16,6 +17,13 @@ gencalc <objs> <entries> <schema> <vars> <doc>
 gencxl <s|f> <objs> <Type> <field>     ->  the same as gencx, the switch being the STRING switch of that template flavour
 gencalcl <s|f> <objs> <entries> <schema> <vars> <doc>      (s = generated!.gotpl, f = root_.gotpl; labels, tag, guards and
                                            selectors as regenerated into `Gen/ComplexityLabels.lean`)
+```
+inst <cfg> <cSent> <cAlt>              ->  <execCalls> <code|-> <stats c/l|-> <mutator calls|->   twice: the server as the
+                                           regenerated `Gen/ExtInstall.lean` (processExtensions, CreateOperationContext) says, then the
+                                           contract `ExtInstall.Spec.serve`
+```
+cfg = the extensions in `Use` order, `;`-separated: `<hooks>:<pact>:<cact>`; hooks = letters of P C O R T F (the hook interfaces
+the type implements; T = RootFieldInterceptor); pact = p | r | f<code>; cact = p | f<code> | l<limit>.
 ```
 objs = `Name:reserved:field>key>reserved|…;…` (what `codegen.Data.Objects` holds; key = the Go field name, normalised;
 reserved = 0 | 1); entries = the `ComplexityRoot` table `Type.key=<expr>;…`. The switch model groups the fields with the
@@ -158,8 +166,42 @@ def showGoEntry (os : List ComplexitySwitch.GObject) : Option (String × String)
 def goRootOf (os : List ComplexitySwitch.GObject) (tbl : List ((String × String) × Expr)) : ComplexityLabel.GoRoot :=
   fun s k => (tbl.lookup (schemaTypeOf os s, k)).map fun e => e.eval
 
+def parseHooks (s : String) : Option (List ExtInstall.Hook) :=
+  s.toList.mapM fun c =>
+    match c with
+    | 'P' => some .param | 'C' => some .ctx | 'O' => some .op | 'R' => some .resp | 'T' => some .rootField | 'F' => some .field
+    | _ => none
+
+def parsePAct (s : String) : Option ExtInstall.PAct :=
+  if s = "p" then some .pass else if s = "r" then some .rewrite
+  else if s.front = 'f' then some (.fail (s.drop 1).toString) else none
+
+def parseCAct (s : String) : Option ExtInstall.CAct :=
+  if s = "p" then some .pass
+  else if s.front = 'f' then some (.fail (s.drop 1).toString)
+  else if s.front = 'l' then ((s.drop 1).toString.toInt?).map .limit else none
+
+def parseCfg (s : String) : Option (List ExtInstall.Ext) :=
+  (items s ";").mapM fun e =>
+    match e.splitOn ":" with
+    | [h, p, c] => do pure { hooks := (← parseHooks h), p := (← parsePAct p), c := (← parseCAct c) }
+    | _ => none
+
+def showHook : ExtInstall.Hook → String
+  | .param => "P" | .ctx => "C" | .op => "O" | .resp => "R" | .rootField => "T" | .field => "F"
+
+def showResult (r : ExtInstall.Result) : String :=
+  let st := match r.stats with | some (c, l) => s!"{c}/{l}" | none => "-"
+  let calls := if r.calls.isEmpty then "-" else ",".intercalate (r.calls.map fun c => s!"{showHook c.1}{c.2}")
+  s!"{r.execCalls} {r.rejected.getD "-"} {st} {calls}"
+
 def step (line : String) : String :=
   match line.splitOn " " with
+  | ["inst", cfg, a, b] =>
+    match parseCfg cfg, a.toInt?, b.toInt? with
+    | some exts, some a, some b =>
+      s!"{showResult (ExtInstall.serveCfg Gen.ExtInstall.program exts ⟨a, b⟩)} {showResult (ExtInstall.Spec.serve exts ⟨a, b⟩)}"
+    | _, _, _ => "bad-op"
   | ["gencxl", fl, objs, t, f] =>
     match flavourOf fl, parseObjs objs with
     | some fl, some os => s!"{showGoEntry os (ComplexityLabel.dispatchBy fl os t f)} {showEntry (ComplexitySwitch.Spec.entryOf os t f)}"
